@@ -137,6 +137,10 @@ class ConcreteSym:
     def realize(self, v):
         return v
 
+    def constrain_any(self, conds):
+        if not any(conds):
+            raise AssumeFailed("disjunctive constraint false on recorded inputs")
+
     def constrain(self, *conds):
         if not all(conds):
             raise AssumeFailed("constraint false on recorded inputs")
